@@ -130,7 +130,7 @@ Put(c, p) == cells' = [x \in DOMAIN cells \cup {c} |-> IF x = c THEN p ELSE cell
 NoWrite == [e |-> "-", a |-> "-"]
 Slot(a) == IF CacheSlots = "per_alpha" THEN a ELSE "one"
 ReadSlot(a) == IF CacheRead = "requested" THEN Slot(a) ELSE Slot(Alphas[1])
-SlotNames == {"0.5", "0.7", "0.9", "0.909", "0.7999999999999999", "one"}
+SlotNames == {"0.5", "0.7", "0.9", "0.909", "0.904", "0.7999999999999999", "one"}
 
 \* state at the top of the loop nest for request r (unprimed for Init, primed to start the next request)
 GroupsOf(r) == {r.aggs[i] : i \in DOMAIN r.aggs} \ {"unit"}
